@@ -1,5 +1,5 @@
 reg("C03", "every offered covariance model is a valid positive-definite model",
-    parts=[dict(harness="c03_cov", cases=dict(quick=3348, thorough=37200), timeout_case=20)],
+    parts=[dict(harness="c03_cov", cases=dict(quick=3348, thorough=27900), timeout_case=20)],
     rule="case i -> (structure, ndim) = i mod 93: ALL 31 ECov structures x ndim 1..3 (complete table, exhaustive); "
          "draw index i div 93 cycles the third-parameter class (low, mid, high, exactly 0, exactly getParMax()); the case "
          "PRNG draws nvar 1-3 with a PSD sill matrix (full rank / rank one / diagonal), ranges 0.5-50 with anisotropy "
@@ -14,10 +14,10 @@ reg("C03", "every offered covariance model is a valid positive-definite model",
                  oracles=dict(quick={"pd": 800, "cpd": 250, "closed-form": 500, "closed-form-axis": 2000,
                                      "closed-form-incr": 200, "vario-mode": 1500, "sym-rect": 1500, "bound": 900,
                                      "support-out": 1500, "range-axis": 250, "gate-sphere": 200, "model-eval": 1500},
-                              thorough={"pd": 8000, "cpd": 3000, "closed-form": 5000, "closed-form-axis": 20000,
-                                        "closed-form-incr": 2000, "vario-mode": 12000, "sym-rect": 12000,
-                                        "bound": 8000, "support-out": 12000, "range-axis": 2500,
-                                        "gate-sphere": 2000, "model-eval": 12000})),
+                              thorough={"pd": 6000, "cpd": 3000, "closed-form": 4000, "closed-form-axis": 16000,
+                                        "closed-form-incr": 2000, "vario-mode": 9000, "sym-rect": 9000,
+                                        "bound": 6000, "support-out": 9000, "range-axis": 1800,
+                                        "gate-sphere": 1500, "model-eval": 9000})),
     assumptions=["eigenvalues by long-double Jacobi (ref_linalg), tolerance 1e3*N*eps*lambda_max",
                  "closed forms as published (ref_cov.hpp); the factor range/scale is read from getScadef()",
                  "positive definiteness is refutable by sampling, not provable"])
